@@ -8,7 +8,7 @@ Open Scope Z_scope.
 
 Section EngineP.
   Variables V E : Type.
-  Variable eval : E -> V -> option V.
+  Variable eval : E -> V -> eres V.
   Variable ord : nat -> list (watcher V E) -> list (watcher V E).
   Hypothesis ord_perm : forall n l, Permutation (ord n l) l.
 
@@ -86,7 +86,7 @@ Section EngineP.
       w_update off w db = (msgs db w, if keeps db w then UKeep V E (bump w) else URemove V E).
   Proof.
     intros w db; unfold Engine.w_update, keeps, msgs, Engine.deliver; simpl.
-    destruct (eval (w_expr w) db) as [v|]; simpl; [|reflexivity].
+    destruct (eval (w_expr w) db) as [v| |]; simpl; try reflexivity.
     destruct (w_cb w (w_n w) v); reflexivity.
   Qed.
 
@@ -195,14 +195,14 @@ Section EngineP.
 
   Definition ack_of (db : V) (ev : event) : ack :=
     match ev with
-    | Update e => AUpd (match eval e db with Some _ => true | None => false end)
+    | Update e => AUpd (match eval e db with EVal _ => true | _ => false end)
     | _ => ADone
     end.
 
   Lemma deliver_shape : forall e cb n db,
       snd (deliver e cb n db) = OLive V E e cb (S n) \/ snd (deliver e cb n db) = ONone V E.
   Proof.
-    intros; unfold Engine.deliver. destruct (eval e db); simpl; [destruct (cb n v)|]; auto.
+    intros; unfold Engine.deliver. destruct (eval e db); simpl; [destruct (cb n v)| |]; auto.
   Qed.
 
   Lemma step_refines : forall i st o ev,
@@ -217,7 +217,8 @@ Section EngineP.
     intros i st o ev HR [ND Ho]. destruct st as [db ws stt tr acks n]. simpl in *. subst stt.
     destruct ev as [e | j ex cb | j | | ]; unfold Engine.step; simpl.
     - (* Update *)
-      destruct (eval e db) as [v|] eqn:Ev; simpl.
+      destruct (eval e db) as [v| |] eqn:Ev; simpl.
+      2,3: rewrite app_nil_r; (unfold Inv; simpl; repeat split); assumption.
       + rewrite notify_off. simpl. rewrite obs_trace_app.
         pose proof (ord_NoDup n ws ND) as NDo.
         destruct o as [|ex cb k]; simpl.
@@ -229,7 +230,6 @@ Section EngineP.
           destruct (deliver_shape ex cb k v) as [Hs|Hs]; rewrite Hs.
           -- apply (In_surv v _ _ Hin). unfold keeps; simpl. now rewrite Hs.
           -- apply (notin_surv v _ _ NDo Hin). unfold keeps; simpl. now rewrite Hs.
-      + rewrite app_nil_r. (unfold Inv; simpl; repeat split); assumption.
     - (* Observe *)
       rewrite w_update_off. unfold msgs; simpl.
       pose proof (NoDup_remove_id j ws ND) as NDr.
@@ -385,6 +385,111 @@ Section EngineP.
     rewrite T, T'. unfold Engine.spec_trace. now rewrite <- (spec_trace_erase i h), <- (spec_trace_erase i h'), He.
   Qed.
 
+  (* ---------- closed at most once, and nothing after the close ---------- *)
+  Notation closed_once := (closed_once V).
+  Notation observes := (observes V E).
+
+  Lemma spec_none_silent : forall i h db,
+      existsb (observes i) h = false -> spec_trace_from i db (ONone V E) h = [].
+  Proof.
+    intros i h; induction h as [|ev h IH]; intros db Hn; simpl; [reflexivity|].
+    simpl in Hn. apply orb_false_iff in Hn. destruct Hn as [Hev Hh].
+    assert (Hst : spec_step i db (ONone V E) ev = ([], ONone V E)).
+    { destruct ev as [e|j ex cb|j| |]; simpl in *; try reflexivity.
+      - destruct (eval e db); reflexivity.
+      - now rewrite Hev.
+      - destruct (j =? i); reflexivity. }
+    rewrite Hst. simpl. destruct (is_stop ev); [reflexivity|]. now apply IH.
+  Qed.
+
+  Lemma deliver_good : forall e cb n db,
+      match snd (deliver e cb n db) with
+      | OLive _ _ _ _ _ => exists v, fst (deliver e cb n db) = [MUpdate v]
+      | ONone _ _ => closed_once (fst (deliver e cb n db)) = true
+      end.
+  Proof.
+    intros; unfold Engine.deliver. destruct (eval e db) as [v| |]; simpl; try reflexivity.
+    destruct (cb n v); simpl; eauto.
+  Qed.
+
+  Lemma closed_once_after : forall (ms : list (msg V)) (o' : ostate V E) (rest : list (msg V)),
+      match o' with
+      | OLive _ _ _ _ _ => ms = [] \/ exists v, ms = [MUpdate v]
+      | ONone _ _ => closed_once ms = true
+      end ->
+      (match o' with OLive _ _ _ _ _ => closed_once rest = true | ONone _ _ => rest = [] end) ->
+      closed_once (ms ++ rest) = true.
+  Proof.
+    intros ms o' rest Hms Hrest. destruct o' as [|e cb n].
+    - subst rest. now rewrite app_nil_r.
+    - destruct Hms as [->|[v ->]]; simpl; assumption.
+  Qed.
+
+  Lemma spec_step_good : forall i db o ev, observes i ev = false ->
+      match snd (spec_step i db o ev) with
+      | OLive _ _ _ _ _ => fst (spec_step i db o ev) = [] \/ exists v, fst (spec_step i db o ev) = [MUpdate v]
+      | ONone _ _ => closed_once (fst (spec_step i db o ev)) = true
+      end.
+  Proof.
+    intros i db o ev Hev. destruct ev as [e|j ex cb|j| |]; simpl in *.
+    - destruct (eval e db) as [v| |]; simpl.
+      + destruct o as [|ex cb n]; simpl; [reflexivity|].
+        pose proof (deliver_good ex cb n v) as G. destruct (snd (deliver ex cb n v)); [assumption|]. now right.
+      + destruct o; simpl; auto.
+      + destruct o; simpl; auto.
+    - rewrite Hev. simpl. destruct o; simpl; auto.
+    - destruct (j =? i); destruct o; simpl; auto.
+    - destruct o; reflexivity.
+    - destruct o; reflexivity.
+  Qed.
+
+  Lemma spec_closed_once_from : forall i h db o,
+      existsb (observes i) h = false -> closed_once (spec_trace_from i db o h) = true.
+  Proof.
+    intros i h; induction h as [|ev h IH]; intros db o Hn; simpl; [reflexivity|].
+    simpl in Hn. apply orb_false_iff in Hn. destruct Hn as [Hev Hh].
+    pose proof (spec_step_good i db o ev Hev) as G.
+    destruct (spec_step i db o ev) as [ms o'] eqn:Hst. simpl in G.
+    apply (closed_once_after ms o'); [exact G|].
+    destruct (is_stop ev).
+    - destruct o'; reflexivity.
+    - destruct o'; [now apply spec_none_silent | now apply IH].
+  Qed.
+
+  (* an id subscribed at most once in the history *)
+  Fixpoint observed_once (i : Z) (h : list event) : bool :=
+    match h with
+    | [] => true
+    | ev :: t => if observes i ev then negb (existsb (observes i) t) else observed_once i t
+    end.
+
+  Lemma spec_closed_once : forall i h db,
+      observed_once i h = true -> closed_once (spec_trace_from i db (ONone V E) h) = true.
+  Proof.
+    intros i h; induction h as [|ev h IH]; intros db Ho; simpl; [reflexivity|].
+    simpl in Ho. destruct (observes i ev) eqn:Hev.
+    - apply negb_true_iff in Ho.
+      destruct ev as [e|j ex cb|j| |]; simpl in Hev; try discriminate.
+      simpl. rewrite Hev.
+      pose proof (deliver_good ex cb 0%nat db) as G.
+      destruct (deliver ex cb 0%nat db) as [ms o'] eqn:Hd. simpl in G.
+      apply (closed_once_after ms o').
+      + destruct o'; [assumption|]. now right.
+      + destruct o'; [now apply spec_none_silent | now apply spec_closed_once_from].
+    - assert (Hst : spec_step i db (ONone V E) ev = ([], ONone V E)).
+      { destruct ev as [e|j ex cb|j| |]; simpl in *; try reflexivity.
+        - destruct (eval e db); reflexivity.
+        - now rewrite Hev.
+        - destruct (j =? i); reflexivity. }
+      rewrite Hst. simpl. destruct (is_stop ev); [reflexivity|]. now apply IH.
+  Qed.
+
+  Theorem closed_once_off : forall db0 h i,
+      observed_once i h = true -> closed_once (obs_trace i (s_trace V E (run off db0 h))) = true.
+  Proof.
+    intros db0 h i Ho. destruct (refinement_off db0 h) as (T & _). rewrite T. now apply spec_closed_once.
+  Qed.
+
   (* database and answers do not look at the observers at all *)
   Definition is_obs_event (ev : event) : bool :=
     match ev with Observe _ _ _ | Cancel _ | Hangup => true | _ => false end.
@@ -399,7 +504,7 @@ End EngineP.
    "this run's observables are those of the repaired model" ---------- *)
 Section Guarded.
   Variables V E : Type.
-  Variable eval : E -> V -> option V.
+  Variable eval : E -> V -> eres V.
   Variable ord : nat -> list (watcher V E) -> list (watcher V E).
   Hypothesis ord_perm : forall n l, Permutation (ord n l) l.
   Variable q : Quirks17.
@@ -465,9 +570,10 @@ Definition ord_id : nat -> list (watcher cval cexpr) -> list (watcher cval cexpr
 Lemma ord_id_perm : forall n l, Permutation (ord_id n l) l.
 Proof. intros; apply Permutation_refl. Qed.
 Definition crun (q : Quirks17) (h : list (event cval cexpr)) := run cval cexpr ceval ord_id q None h.
-Definition only_cancel_from_loop := mkQ17 true false.
-Definition only_double_cancel := mkQ17 false true.
-Definition quirks17_all := mkQ17 true true.
+Definition only_cancel_from_loop := mkQ17 true false false.
+Definition only_double_cancel := mkQ17 false true false.
+Definition only_update_panic := mkQ17 false false true.
+Definition quirks17_all := mkQ17 true true true.
 
 (* KF-C17-01: one observer whose expression fails; the next Update is never answered *)
 Definition wit_expr_fails : list (event cval cexpr) := [Observe 1 CFail (cb_of None); Update (CConst 1)].
@@ -523,3 +629,40 @@ Lemma guard_nonvacuous :
   /\ obs_trace _ 1 (s_trace _ _ (crun quirks17_all wit_guarded)) = [MUpdate None; MUpdate (Some 5); MUpdate (Some 53); MClose true]
   /\ obs_trace _ 2 (s_trace _ _ (crun quirks17_all wit_guarded)) = [MUpdate (Some 6); MUpdate (Some 54); MUpdate (Some 55); MClose true].
 Proof. repeat split; vm_compute; reflexivity. Qed.
+
+(* ---------- panics ---------- *)
+Theorem closed_once_q : forall V E eval ord, (forall n l, Permutation (ord n l) l) ->
+  forall q db0 h i,
+    observables V E (run V E eval ord q db0 h) = observables V E (run V E eval ord quirks17_off db0 h) ->
+    observed_once V E i h = true ->
+    closed_once V (obs_trace V i (s_trace V E (run V E eval ord q db0 h))) = true.
+Proof.
+  intros V E eval ord Hp q db0 h i G Ho.
+  destruct (guard_proj V E eval ord q db0 h G) as (_ & _ & T & _). rewrite T. now apply closed_once_off.
+Qed.
+
+(* KF-C17-03: an update expression whose evaluation panics *)
+Definition wit_update_panics : list (event cval cexpr) :=
+  [Observe 1 CRoot (cb_of None); Update CPanic; Update (CConst 1)].
+Lemma update_panic_refuted :
+  s_status _ _ (crun only_update_panic wit_update_panics) = Crashed
+  /\ s_acks _ _ (crun only_update_panic wit_update_panics) = [ADone; ANone; ANone]
+  /\ s_acks _ _ (crun quirks17_off wit_update_panics) = [ADone; AUpd false; AUpd true].
+Proof. repeat split; vm_compute; reflexivity. Qed.
+
+(* an observed expression that panics from some state on, and a callback that panics at its second delivery:
+   closed once with the panic, dropped, the other observer and the later updates unaffected *)
+Definition wit_observer_panics : list (event cval cexpr) :=
+  [Update (CConst 1); Observe 1 (CPanicGt 1) (cb_of None); Observe 2 CRoot (cb_full None [1%nat]); Observe 3 CRoot (cb_of None);
+   Update (CConst 2); Update (CConst 3); Update (CConst 4)].
+Lemma observer_panics_repaired :
+  obs_trace _ 1 (s_trace _ _ (crun quirks17_off wit_observer_panics)) = [MUpdate (Some 1); MClose false]
+  /\ obs_trace _ 2 (s_trace _ _ (crun quirks17_off wit_observer_panics)) = [MUpdate (Some 1); MUpdate (Some 2); MClose false]
+  /\ obs_trace _ 3 (s_trace _ _ (crun quirks17_off wit_observer_panics)) = [MUpdate (Some 1); MUpdate (Some 2); MUpdate (Some 3); MUpdate (Some 4)]
+  /\ s_acks _ _ (crun quirks17_off wit_observer_panics) = [AUpd true; ADone; ADone; ADone; AUpd true; AUpd true; AUpd true].
+Proof. repeat split; vm_compute; reflexivity. Qed.
+(* the code before the in-loop-removal fix kept a watcher whose update panicked: closed again and again *)
+Lemma observer_panics_old_code :
+  obs_trace _ 1 (s_trace _ _ (crun only_cancel_from_loop wit_observer_panics)) = [MUpdate (Some 1); MClose false; MClose false; MClose false]
+  /\ closed_once _ (obs_trace _ 1 (s_trace _ _ (crun only_cancel_from_loop wit_observer_panics))) = false.
+Proof. split; vm_compute; reflexivity. Qed.
